@@ -21,8 +21,12 @@ T_Closed == IsEvent("conn_closed") /\ LET r == Rec[l] IN
   /\ AllowTransportClose \/ r.error.kind \in {"application", "closed", "idle", "handshake_duration", "endpoint_closing", "immediate_close"}
   /\ StopSending(r.ep)
   /\ UNCHANGED closeSeen
+\* the max_ack_delay an endpoint must honour is the one it ADVERTISED: the value its peer received in the transport parameters
+T_Tp == IsEvent("tp") /\ LET r == Rec[l] IN
+          mad' = [mad EXCEPT ![Other(r.ep)] = r.max_ack_delay]
+          /\ UNCHANGED <<genuine, processed, lastTx, pending, maySend, pacedUntil, ackSent, ackFloor, closeSeen>>
 T_Paced == IsEvent("pacing") /\ Paced(Rec[l].ep, Rec[l].until) /\ UNCHANGED closeSeen
 T_End == IsEvent("sim_end") /\ Tick(Rec[l].t) /\ UNCHANGED closeSeen
-TNext == T_Paced \/ T_Reset \/ T_TxP \/ T_TxF \/ T_RxP \/ T_RxF \/ T_Closed \/ T_End
+TNext == T_Tp \/ T_Paced \/ T_Reset \/ T_TxP \/ T_TxF \/ T_RxP \/ T_RxF \/ T_Closed \/ T_End
 TSpec == TInit /\ [][TNext]_tvars
 =============================================================================
